@@ -793,12 +793,27 @@ fn full_regex(ctx: &mut Ctx) {
         let seed = ctx.seed;
         let res = guarded(|| {
             let mut r = Rng::for_case(seed, "c02.regex", idx);
-            let spelled = gen::gen_regex_body(&mut r);
+            let mut spelled = gen::gen_regex_body(&mut r);
+            if r.chance(1, 3) {
+                // upper-case some literal letters of the rule (never the letter of an escape):
+                // without match-case the rule must match as if it had been written in lower case
+                let mut out = String::new();
+                let mut prev = ' ';
+                for c in spelled.chars() {
+                    if c.is_ascii_lowercase() && prev != '\\' && r.chance(1, 3) {
+                        out.push(c.to_ascii_uppercase());
+                    } else {
+                        out.push(c);
+                    }
+                    prev = c;
+                }
+                spelled = out;
+            }
             let match_case = r.chance(1, 4);
             let line = if match_case { format!("{}$match-case", spelled) } else { spelled.clone() };
             let f = NetworkFilter::parse(&line, true, Default::default()).ok()?;
             let inner = spelled[1..spelled.len() - 1].replace("\\/", "/");
-            let re = regex::Regex::new(&inner).ok()?;
+            let re = regex::Regex::new(&if match_case { inner.clone() } else { inner.to_ascii_lowercase() }).ok()?;
             let mut rm = RegexManager::default();
             let mut v = vec![];
             for _ in 0..6 {
